@@ -20,11 +20,11 @@ if [ ! -x "$VERIF/bin/overlaygen" ] || [ -n "$(find "$VERIF/tools/overlaygen" -n
   (cd "$VERIF/tools" && GOTOOLCHAIN=local go build -o "$VERIF/bin/overlaygen" ./overlaygen) || { echo "HARNESS-ERROR cannot build overlaygen"; exit 2; }
 fi
 goroot=$(cd "$REPO" && go env GOROOT) || { echo "HARNESS-ERROR go env failed"; exit 2; }
-# C01-C04, C06-C10, C16 and C18 explore concurrent requests with scheduling points at statement level in every package
+# C01-C10, C16 and C18 explore concurrent requests with scheduling points at statement level in every package
 # of the repository ("wide" instrumentation). If a tree does not build that way (the syntactic pass
 # met something it cannot handle) the check falls back to the narrow instrumentation and says so.
 wide=""
-case "$id" in C01|C02|C03|C04|C06|C07|C08|C09|C10|C16|C18) wide="-wide";; esac
+case "$id" in C01|C02|C03|C04|C05|C06|C07|C08|C09|C10|C16|C18) wide="-wide";; esac
 built=""
 if [ -n "$wide" ] && [ -z "${VERIF_NO_WIDE:-}" ]; then
   mkdir -p "$run/w"
